@@ -776,6 +776,28 @@ def relaid_family(ctx, modes, checks):
     engine_projection(ctx, res, checks)
     cli_projection(ctx, res, checks, 40 if ctx.tier == "quick" else 1000)
 
+def stale_capture_family(ctx, checks=frozenset({"status", "content", "decisions"})):
+    """Changes of one patch file share the file they edit in place: a node that an earlier change bound to a metavariable (in
+    an attempt that failed, or one that succeeded and kept the node) and then edited inside, bound again by a later change -
+    what is reproduced from it, and what it is compared with, is the code as it is now."""
+    a1 = "@@\nvar x expression\n@@\n-foo(x, 1)\n+bar(x)\n"
+    a2 = "@@\nvar y expression\n@@\n-foo(y, 2)\n+baz(y)\n"
+    a3 = "@@\nvar z expression\n@@\n-g(z)\n+h(z, z)\n"
+    a4 = "@@\nvar f identifier\nvar w expression\n@@\n-f(w, 3)\n+f(3, w)\n"
+    srcs = ["package a\n\nfunc f() int {\n\treturn foo(g(foo(b, 1)), 2)\n}\n",
+            "package a\n\nfunc f() {\n\tfoo(g(foo(b, 1)), 2)\n\tfoo(foo(foo(c, 1), 2), 3)\n\tuse(g(foo(g(foo(d, 1)), 2)))\n}\n"]
+    cases = []
+    for si, src in enumerate(srcs):
+        for oi, order in enumerate(([a1, a2], [a2, a1], [a1, a3, a2], [a4, a1, a2], [a1, a2, a3, a4], [a3, a1, a2])):
+            cases.append({"id": f"stalecap{si}-{oi}-one-file", "patches": ["\n".join(order)], "src": src, "cli_form": "flags"})
+            cases.append({"id": f"stalecap{si}-{oi}-files", "patches": order, "src": src, "cli_form": CLI_FORMS[(si + oi) % len(CLI_FORMS)]})
+    res = run_engine_batch(ctx, ["-inputs", write_jsonl(ctx, cases)], "stalecap")
+    ctx.count("stale_capture_cases", len(res))
+    engine_projection(ctx, res, set(checks))
+    cli_projection(ctx, res, set(checks) - {"where", "converse"}, 6 * len(res))
+    # the library: one parsed patch file, the same bytes as the command line prints
+    api_vs_cli(ctx, cli_print_triples(ctx, [c for c in cases if len(c["patches"]) == 1]), "a node bound by two changes of one patch file")
+
 def c02_generated_sites(ctx):
     """A later change of the patch binds its metavariables at several sites inside code that an earlier change generated
     (nodes that never had a place in the file): what is bound at one site must not show at another, and a repeated
@@ -806,6 +828,19 @@ def c02_generated_sites(ctx):
                f"\tuse(t, {W}({c}))\n}}\n")
         how = [[p1, p2], [p1 + "\n" + p2]][k % 2]
         cases.append({"id": f"gensites{k}", "patches": how, "src": src})
+    # an earlier change of the same patch file tries a node (and binds it, whether or not the attempt succeeds), code inside
+    # that node is rewritten, and a later change binds the same node for a repeated metavariable: it stands for the code as
+    # it is now
+    c1 = "@@\nvar f identifier\nvar x expression\n@@\n-f(x, 0)\n+f(x, 1)\n"
+    c2 = "@@\n@@\n-zero()\n+wrap(level(7, 0), 5)\n"
+    c3 = "@@\nvar y expression\n@@\n-same(y, y)\n+one(y)\n"
+    c4 = "@@\nvar y, z expression\n@@\n-pairOf(y, z, y)\n+both(y, z)\n"
+    srcs = ["package a\n\nvar _ = same(wrap(level(7, 0), 5), wrap(level(7, 0), 5))\n\nvar _ = same(wrap(level(8, 0), 5), wrap(level(9, 0), 5))\n\nvar _ = same(wrap(level(7, 0), 5), zero())\n",
+            "package a\n\nfunc g() {\n\tpairOf(level(1, 0), zero(), level(1, 0))\n\tpairOf(wrap(level(7, 0), 5), 2, zero())\n\tsame(zero(), wrap(level(7, 1), 5))\n}\n"]
+    for si, src in enumerate(srcs):
+        for oi, order in enumerate(([c1, c2, c3], [c2, c1, c3], [c3, c1, c2, c3], [c1, c2, c4, c3], [c2, c3, c1, c3])):
+            cases.append({"id": f"stale{si}-{oi}-one-file", "patches": ["\n".join(order)], "src": src})
+            cases.append({"id": f"stale{si}-{oi}-files", "patches": order, "src": src})
     res = run_engine_batch(ctx, ["-inputs", write_jsonl(ctx, cases)], "c02sites")
     ctx.count("generated_sites_cases", len(res))
     engine_projection(ctx, res, {"decisions", "where", "content"})
@@ -904,6 +939,7 @@ def c02(ctx):
     kinds_and_names_family(ctx, {"decisions", "where", "content"})
     very_large_patterns(ctx, {"decisions", "where", "content"})
     patch_sources_family(ctx)
+    stale_capture_family(ctx)
     ctx.rule = rule + (" A directed family runs two changes of which the second binds its metavariables at several sites inside "
                        "code the first one generated (equal and different fillers, also of equal length; as two patch files and as one).")
 
@@ -989,6 +1025,7 @@ def c03(ctx):
     c03_type_positions(ctx)
     refused_rewrites_family(ctx)
     patch_sources_family(ctx)
+    stale_capture_family(ctx)
 
 TYPE_PLUS = ["OrderedSet[T]", "pkg.Map[string, T]", "*T", "[]T", "[4]T", "map[string]T", "chan T", "<-chan T", "func(T) error", "(T)",
              "struct{ v T }", "interface{ M() T }", "pkg.Set", "Set2", "G[T, U]", "[]*pkg.G[T]"]
@@ -2564,6 +2601,16 @@ def c14(ctx):
         files = {nm: f"package a\n\nfunc f{j}() {{\n\tfoo({j})\n}}\n" for j, nm in enumerate(names)}
         for rk, rp in enumerate((_NODOTS, _KINDS.replace("run", "foo"), _PLUSONLY.replace("h(x)", "foo(x)"))):
             scen.append(Scenario(f"rerr3_{pos}_{rk}", [rp], files, "a change that is refused in every file it matches: in each of them alike"))
+    # lists generated inside lists (an elision reproduced twice, once inside a nested call), after a file in which an item of such
+    # a list cannot be generated; and the failures inside lists of C16's table: what the next file gets is its own result
+    nested = "@@\nvar f expression\n@@\n-invoke(f, ...)\n+client.Call(api.f, trace(...), ...)\n"
+    for pos, names in enumerate((("a/a.go", "b/b.go"), ("b/b.go", "z/a.go"), ("a/a.go", "b/b.go", "c/a.go", "d/b.go"))):
+        files = {nm: ("package a\n\nfunc a1() {\n\tinvoke(Get, \"k\", 1)\n}\n\nfunc a2() {\n\tinvoke(pkg.Get, \"k\", 2)\n}\n" if nm.endswith("a.go") else
+                      f"package b\n\nfunc b1() {{\n\tinvoke(Put, \"x\", 1{j})\n}}\n\nfunc b2() {{\n\tinvoke(Del, \"y\", 2{j}, 30)\n}}\n") for j, nm in enumerate(names)}
+        scen.append(Scenario(f"nested-lists_{pos}", [nested], files, "nested generated lists after a file where a list item cannot be generated"))
+    for lk, (lp, lbad, lgood) in enumerate(LIST_REPLACE_ERR):
+        scen.append(Scenario(f"listerr{lk}", [lp], {"a_bad.go": lbad, "b_good.go": lgood, "c_bad.go": lbad, "d_good.go": lgood.replace("func ok(", "func ok2(")},
+                             "rewrite error inside a list, before files where the change applies"))
     # one directory, two packages (a package and its external tests), patches guarded by a package clause: what a file's
     # neighbours are called or contain does not decide about it
     for gi, (pk, first) in enumerate((("store_test", "a_"), ("store_test", "z_"), ("store", "a_"), ("store", "z_"))):
@@ -2692,6 +2739,17 @@ def c14(ctx):
 
 # --- the library with one parsed patch reused over a sequence of sources (shared by C06, C07, C08, C14, C16) ------------
 REPLACE_ERR = ("@@\nvar x expression\n@@\n-foo(x)\n+bar.x\n", "package a\n\nfunc f() {\n\tfoo(g(1))\n}\n")
+LIST_REPLACE_ERR = [
+    ("@@\nvar x expression\n@@\n-legacy.Lookup(x)\n+metrics.Inc()\n+registry.x()\n",
+     "package a\n\nfunc bad() {\n\tsetupA()\n\tlegacy.Lookup(\"name\")\n\tteardownA()\n}\n",
+     "package a\n\nfunc ok() {\n\tsetupB()\n\tlegacy.Lookup(counter)\n\tteardownB()\n}\n"),
+    ("@@\nvar x expression\n@@\n-call(first(), ..., x)\n+call(..., second(), obj.x)\n",
+     "package a\n\nfunc bad() {\n\tcall(first(), a1, a2, f())\n}\n",
+     "package a\n\nfunc ok() {\n\tcall(first(), b1, name)\n}\n"),
+    ("@@\nvar x expression\n@@\n func f() {\n   ...\n-  old(x)\n+  fresh()\n+  goto x\n }\n",
+     "package a\n\nfunc f() {\n\tprepA()\n\told(1 + 2)\n}\n",
+     "package a\n\nfunc f() {\n\tprepB()\n\told(done)\ndone:\n}\n".replace("\told(done)\ndone:\n", "\told(done)\n")),
+]
 REUSE_SEQS = [
     # (patch, sources): sources that are rewritten, that make the replacement fail, that the patch does not match, again
     (REPLACE_ERR[0], ["package a\n\nfunc ok() { foo(name) }\n", REPLACE_ERR[1], "package a\n\nfunc un() { zzz(1) }\n",
@@ -2948,6 +3006,12 @@ def c16(ctx):
         files = {"b.go": "package a\n\nfunc ok() {\n\tfoo(1)\n}\n", "m/n.go": "package a\n\nfunc ok2() { foo(2) }\n"}
         files[nm] = REPLACE_ERR[1]
         scen.append(Scenario(f"replaceerr-{pos}", [REPLACE_ERR[0]], files, f"rewrite error at {nm}"))
+        # rewrites that fail half way through a list (statements already generated, elided runs already copied): what the next
+        # file gets is its own result
+        for lk, (lp, lbad, lgood) in enumerate(LIST_REPLACE_ERR):
+            files = {"b.go": lgood, "m/n.go": lgood.replace("func ok(", "func ok2("), "q.go": "package a\n\nfunc un() { zzz() }\n"}
+            files[nm] = lbad
+            scen.append(Scenario(f"listerr{lk}-{pos}", [lp], files, f"rewrite error inside a list at {nm}"))
         files = {"b.go": "package a\n\nfunc ok() {\n\tz := foo(1)\n\t_ = z\n}\n", "m/n.go": "package a\n\nfunc ok2() { _ = foo(2) }\n"}
         files[nm] = MISFIT[0][1]
         scen.append(Scenario(f"misfit-{pos}", [MISFIT[0][0]], files, f"unparseable result at {nm}"))
@@ -5259,6 +5323,7 @@ def c09(ctx):
     # "if any step fails, the combined run reports the failure and leaves the file untouched": command line and library
     refused_rewrites_family(ctx)
     patch_sources_family(ctx)
+    stale_capture_family(ctx)
     # CLI chain check
     rng = random.Random(ctx.seed)
     cases = [c for c in gen_cases(ctx, "c09", 150 if ctx.tier == "quick" else 3000, ctx.seed + 7, golden=False) if c.get("chain")]
